@@ -81,7 +81,9 @@ def meaning (fetch : Bytes → Option Table) (q : Select) : Option (List Row) :=
   -- every column named in the select list must resolve, whether or not there are rows
   let _ ← (q.list.flatMap fun d => itemColumns d.item).mapM fun c =>
     match findColumn c fields with | .ok i => some i | _ => none
-  if !(q.list.any fun d => isAgg d.item) then
+  -- (GROUP BY groups whether or not the select list holds an aggregate: `SELECT a FROM t GROUP BY a`
+  -- is one row per distinct `a`)
+  if !(q.list.any fun d => isAgg d.item) && q.groupBy.isEmpty then
     src.mapM fun r => q.list.mapM fun d => itemVal d.item fields r
   else
     -- grouping columns: the select-list columns designated by the GROUP BY references
@@ -126,7 +128,7 @@ def satisfies (q : Select) (hdr : List Field) (want : List Row) (result : List R
   let cut (l : List Row) : List Row := let d := l.drop off; if q.lim.limitActive then d.take q.lim.limit.toNat else d
   if q.orderBy.isEmpty then
     let single := match q.from_ with | some (.table _) => true | _ => false
-    if single && !(q.list.any fun d => isAgg d.item) then result == cut want
+    if single && !(q.list.any fun d => isAgg d.item) && q.groupBy.isEmpty then result == cut want
     else if q.lim.offsetActive || q.lim.limitActive then
       result.length == (cut want).length && subMultiset result want
     else sameMultiset result want
